@@ -270,6 +270,14 @@ class C10Mixin(object):
             atoms = [el]
             if group in ("neutron", "activation"):
                 atoms += list(el)
+            if group == "xray":
+                # ions and isotope ions have x-ray records of their own (plain isotopes delegate)
+                ions = sorted(getattr(el, "ions", ()))
+                if ions:
+                    atoms.append(el.ion[ions[0]])
+                    isos = list(el)
+                    for iso in (isos[:1] if el.number != 1 else isos[:3]):
+                        atoms.append(iso.ion[ions[-1]])
             for a in atoms:
                 for n in names:
                     d = getattr(a, "__dict__", {})
